@@ -90,12 +90,16 @@ def xxhash64 (bs : List Byte) : Nat :=
 /-! ## 2. shard of a write (`pkg/partition`) -/
 
 /-- `ShardID(key, shardNum)` given `hash = convert.Hash(key)`: `none` is the "invalid shardNum" error. -/
+def shardNumMin : Nat := 1
+
 def shardID (hash : Nat) (shardNum : Nat) : Option Nat :=
-  if shardNum < 1 then none else some (hash % shardNum)
+  if shardNum < shardNumMin then none else some (hash % shardNum)
 
 /-- `TraceShardID`: a zero shard count answers shard 0 instead of an error. -/
+def traceShardOnZero : Nat := 0
+
 def traceShardID (hash : Nat) (shardNum : Nat) : Nat :=
-  if shardNum = 0 then 0 else hash % shardNum
+  if shardNum = 0 then traceShardOnZero else hash % shardNum
 
 /-- `MarshalTagValue` (pkg/pb/v1/write.go) for the value kinds an entity may hold: raw bytes, no delimiter. -/
 def tvBytes : C12.TagValue → List Byte
@@ -233,9 +237,11 @@ def pick (st : Sel) (g : Name) (s r : Nat) : PickResult :=
     else .unknown
 
 /-- `String()`: one entry per lookup key and copy `0..replicas` (before JSON rendering). -/
+def copiesExtra : Nat := 1
+
 def describe (st : Sel) : List (Name × Nat × Nat × PickResult) :=
   st.lookup.flatMap fun k =>
-    (List.range (k.replicas + 1)).map fun i => (k.group, k.shard, i, pick st k.group k.shard i)
+    (List.range (k.replicas + copiesExtra)).map fun i => (k.group, k.shard, i, pick st k.group k.shard i)
 
 /-! ## 4. event sequences -/
 
@@ -260,5 +266,82 @@ def step_legacy (st : Sel) : Event → Sel
 
 def run (es : List Event) : Sel := es.foldl step Sel.empty
 def run_legacy (es : List Event) : Sel := es.foldl step_legacy Sel.empty
+
+/-! ### `clusterNodeService` (banyand/liaison/grpc/node.go) in front of the selector -/
+
+/-- `OnAddOrUpdate`/`OnDelete` for `KindNode`: an event for a node without a name never reaches the selector. -/
+def svcEvent : Event → List Event
+  | .addNode n m => if n = [] then [] else [.addNode n m]
+  | .removeNode n => if n = [] then [] else [.removeNode n]
+  | e => [e]
+
+def dedup : List Name → List Name
+  | [] => []
+  | x :: xs => if xs.contains x then dedup xs else x :: dedup xs
+
+def PickResult.node? : PickResult → Option Name
+  | .node n => some n
+  | _ => none
+
+/-- `LocateAll(group, shard, copies)`: the distinct nodes of replicas `0..copies-1`, sorted; the first failing
+    `Locate` aborts with its error. (`copies < 1` is rejected by the caller-facing check and not modelled.) -/
+def locateAll (st : Sel) (g : Name) (s copies : Nat) : Except PickResult (List Name) :=
+  let rs := (List.range copies).map (pick st g s)
+  match rs.find? (fun p => p.node?.isNone) with
+  | some e => .error e
+  | none => .ok (sortBy lexLt (dedup (rs.filterMap PickResult.node?)))
+
+/-! ## 5. specification side: the topology a coordinator has been told about
+
+Independent of lists and sorting: which groups exist with how many shards/replicas, which nodes are live. -/
+
+structure Topo where
+  shards : Name → Nat          -- 0 = group unknown (or known with no shard)
+  replicas : Name → Nat
+  node : Name → Bool
+
+def Topo.empty : Topo := { shards := fun _ => 0, replicas := fun _ => 0, node := fun _ => false }
+
+def upd {β : Type} (f : Name → β) (g : Name) (v : β) : Name → β := fun x => if x = g then v else f x
+
+/-- the listing entry that describes group `g` (the registry is keyed by name) -/
+def specOf (gs : List GroupSpec) (g : Name) : Option GroupSpec := gs.find? fun sp => sp.valid && sp.name == g
+
+def Topo.step (T : Topo) : Event → Topo
+  | .addOrUpdate g true n r => { T with shards := upd T.shards g n, replicas := upd T.replicas g r }
+  | .addOrUpdate _ false _ _ => T
+  | .delete g true => { T with shards := upd T.shards g 0 }
+  | .delete _ false => T
+  | .init gs =>
+    { T with shards := fun g => ((specOf gs g).map (·.shardNum)).getD 0,
+             replicas := fun g => ((specOf gs g).map (·.replicas)).getD 0 }
+  | .addNode n true => { T with node := upd T.node n true }
+  | .addNode _ false => T
+  | .removeNode n => { T with node := upd T.node n false }
+
+def topoOf (es : List Event) : Topo := es.foldl Topo.step Topo.empty
+
+/-- `(g, s, r)` is a shard of the topology -/
+def Topo.hasKey (T : Topo) (k : Key) : Prop := k.shard < T.shards k.group ∧ k.replicas = T.replicas k.group
+
+/-- two topologies are the same: same shards (with replica counts), same live nodes -/
+def Topo.Same (T₁ T₂ : Topo) : Prop := (∀ k, T₁.hasKey k ↔ T₂.hasKey k) ∧ (∀ n, T₁.node n = T₂.node n)
+
+/-- the registry never lists two (valid) groups with the same name -/
+def Event.WF : Event → Prop
+  | .init gs => ((gs.filter fun g => g.valid).map (·.name)).Nodup
+  | _ => True
+
+/-- The canonical state for a topology: both tables strictly sorted, containing exactly the topology. -/
+structure Canon (T : Topo) (st : Sel) : Prop where
+  lookup_sorted : st.lookup.Pairwise (fun a b => keyLt a b = true)
+  lookup_mem : ∀ k, k ∈ st.lookup ↔ T.hasKey k
+  nodes_sorted : st.nodes.Pairwise (fun a b => lexLt a b = true)
+  nodes_mem : ∀ n, n ∈ st.nodes ↔ T.node n = true
+
+/-- The canonical state computed from any listing of a topology (groups in any order, nodes in any order). -/
+def canonOf (gs : List GroupSpec) (ns : List Name) : Sel :=
+  { lookup := sortBy keyLt ((gs.filter fun g => g.valid).flatMap fun g => newKeys g.name g.shardNum g.replicas),
+    nodes := sortBy lexLt ns }
 
 end Banyan.C16
